@@ -7,7 +7,7 @@ HOOK_COMMITS = ["57c9cc3"]
 # id -> (level category, technique, level text, level note, design ref, engine)
 CHECKS = {
  "C01": ("exploration", "bounded-exhaustive enumeration of packet values (per-field whole domains over two baselines) through the real encoder and decoder, both directions",
-         "Every Gen case (73 kinds x B0/B1 x every field's bounded domain: all 8-bit values, 16-bit boundary sets in quick / whole 16-bit domains in thorough, 32-bit boundary + byte-lane sets, every enumerant, flag subsets, all nibble pairs, counts 0..max, list-element value sweeps at the first and at the last position, MAL/IPB element values, text) x both size modes is encoded, decoded and re-encoded: typed->wire->typed equality (Debug) and wire->typed->wire byte identity on every frame the encoder produced. Decoder-independent typed values cover the hand-written reader/writer pairs (ConInfo nibbles, SmallType durations, CimMode, RaceLaps, Fuel, Vehicle, allowed cars, multi-codepage MSO), every counted kind at 0, 1, 2 and the maximum number of elements in both modes, and in-width multi-codepage text in all 30 text fields.",
+         "Every Gen case (73 kinds x B0/B1 x every field's bounded domain: all 8-bit values, 16-bit boundary sets in quick / whole 16-bit domains in thorough, 32-bit boundary + byte-lane sets, every enumerant, flag subsets, all nibble pairs, counts 0..max, list-element value sweeps at the first and at the last position, MAL/IPB element values, text) x both size modes is encoded, decoded and re-encoded: typed->wire->typed equality (Debug) and wire->typed->wire byte identity on every frame the encoder produced. Decoder-independent typed values cover the hand-written reader/writer pairs (ConInfo nibbles, SmallType durations, CimMode, RaceLaps, Fuel, Vehicle, allowed cars, multi-codepage MSO), every counted kind at 0, 1, 2 and the maximum number of elements in both modes, in-width multi-codepage text in all 30 text fields, and MSO with name / text / TextStart across code pages and user types.",
          "Beyond one-field sweeps, all pairs of fields (top level and inside one list element) are explored over boundary values, every enumerant and flag bit (thorough: whole bytes); triples are not; typed values of the Gen site come from decoding in-domain specification frames.", "DESIGN.md §4 C01", "E1"),
  "C02": ("model_checking",
          "bounded-exhaustive enumeration of an explicit layout model (spec table) with full conformance replay through the real codec",
@@ -30,13 +30,13 @@ CHECKS = {
          "All strings of length <= 5 (quick) / <= 7 (thorough) over 16 class representatives (caret, digits, escape letters, reserved characters, code-page letters, Latin-1/E/J characters) all strings <= 3 over every reserved character and escape letter, and every character of the ten pages' repertoire right behind a caret / an escaped caret / in front of a colour code: unescape(escape(s)) = s, no raw reserved character, escape -> encode -> decode -> unescape = s, strip = reference stripper and idempotent.",
          "Strings longer than the bound or mixing other characters are outside the bound.", "DESIGN.md §4 C12", "E1"),
  "C13": ("exploration", "complete enumeration of the 2^32 input domain",
-         "Thorough: all 2^32 four-byte values against the InSim v9 car-id rule written independently (decode class, exact re-encode, display name, is_mod/is_builtin). Quick: all 2^24 values with byte 3 = 0 plus all alphanumeric triples x 256.",
+         "Thorough: all 2^32 four-byte values against the InSim v9 car-id rule written independently (decode class, exact re-encode, display name, is_mod/is_builtin). Quick: all 2^24 values with byte 3 = 0 plus all alphanumeric triples x 256. Both: the same rule inside every packet that carries a car name, and every composition of short reads / interrupted reads / slow writers.",
          "none beyond the rule transcription", "DESIGN.md §4 C13", "E1"),
  "C14": ("exploration", "exhaustive enumeration of all enum variants and all shaped 6-byte strings",
-         "All variants of enum Track (list extracted from the source at build time): wire form = code NUL-padded, decodes back, display = code, reverse/open flags from the code suffix, open => no distance, licence constant per area; 281 M shaped 6-byte strings (upper/lower case, junk in padding) decode only if they are exactly a variant's wire form.",
+         "All variants of enum Track (list extracted from the source at build time): wire form = code NUL-padded, decodes back, display = code, reverse/open flags from the code suffix, open => no distance, licence constant per area; 281 M shaped 6-byte strings (upper/lower case, junk in padding), every code at every offset between fill bytes, every 1-byte and alphabet 2-byte mutation of every wire form decode only if they are exactly a variant's wire form; every composition of short reads.",
          "6-byte values outside the shaped space are not enumerated.", "DESIGN.md §4 C14", "E1"),
  "C15": ("exploration", "exhaustive enumeration of 8/16-bit wire domains and boundary sets of 32-bit fields, both directions",
-         "All 256 race-length bytes, Laps(0..=2000), Hours(0..=300); all 23 time fields: every 16-bit wire value and 32-bit boundary/byte-lane sets through the full packet codec in both modes over both baselines (meaning = w x resolution, exact re-encode), encode side floors to the resolution, out-of-range durations are refused.",
+         "All 256 race-length bytes, Laps(0..=2000), Hours(0..=300); all 23 time fields: every 16-bit wire value and 32-bit boundary/byte-lane sets through the full packet codec in both modes over both baselines (meaning = w x resolution, exact re-encode), encode side floors to the resolution, out-of-range durations (up to Duration::MAX, incl. aliases of in-range values) are refused; the public conversion helpers over their complete 16- and (thorough) 32-bit wire domains.",
          "32-bit fields are covered on boundary sets, not completely.", "DESIGN.md §4 C15", "E1"),
  "C16": ("exploration", "exhaustive enumeration of strings to a length bound and of all pairs/triples of parsed versions",
          "All strings <= 6/7 over a 13-symbol alphabet (no panic, watchdog for non-termination, print-reparse equality, letter case-insensitivity), runs of 0..=200 of one symbol (incl. multi-byte numerals) in four frames, every non-negative finite f32 as the number (thorough: all 2^31; quick: every 2048th) printed and re-parsed, all 8-byte wire forms of LFS's shape through the VER codec, all ordered pairs of parsed versions (antisymmetry, consistency with ==, number-letter-revision rule) and all triples of a stratified subset (transitivity).",
@@ -75,7 +75,7 @@ CHECKS["C18"] = ("model_checking", "explicit-state search over all reachable sta
          "All builder states reachable with a 33-setter (quick) / 43-setter (thorough) alphabet - each flag helper on/off, wholesale flag replacement, prefix / interval / name / password / request id present or absent, tcp, udp with and without local address, compressed, uncompressed, relay - are explored; on every transition isi() must not panic and must equal the reference builder's ISI (documented defaults, later calls override earlier ones). 72 connects (tcp / udp without / with local address x mode x blocking/tokio x 6 ISI configurations) check that the peer receives exactly the encoded ISI and nothing else.",
          "Setter arguments are limited to 2-3 representatives each.", "DESIGN.md §4 C18", "E2")
 CHECKS["C20"] = ("model_checking", "exhaustive enumeration of message schedules (partitions, interleavings, read sizes) executed on real loopback WebSocket connections",
-         "Adaptor level: every partition of an 8/12-byte stream into binary messages x 8 caller read sizes, text / ping / empty-binary messages inserted at every boundary, 300 non-binary messages in a row, messages larger than the 1020-byte adaptor buffer (up to 200 000 bytes): bytes read = concatenated binary payloads, close = 0-byte read. Connection level: frame sequences x message partitions give exactly the TCP reference results and Disconnected on close; every kind's packet (both modes, up to the largest counted frames) and sequences of writes leave as exactly one binary message per packet holding its frame.",
+         "Adaptor level: every partition of an 8/12-byte stream into binary messages x 8 caller read sizes, text / ping / empty-binary messages inserted at every boundary, 300 non-binary messages in a row, messages larger than the 1020-byte adaptor buffer (up to 200 000 bytes): bytes read = concatenated binary payloads, close = 0-byte read. Connection level: frame sequences x message partitions give exactly the TCP reference results and Disconnected on close; every kind's packet (both modes, up to the largest counted frames), sequences of writes and writes against a peer that does not read until the writer stalls leave as exactly one binary message per packet holding its frame.",
          "Loopback TCP with a tungstenite server inside the harness; 2 s watchdog on every await.", "DESIGN.md §4 C20", "E2")
 
 NOT_BUILT = {}
